@@ -6,6 +6,19 @@ ids = [p['id'] for p in props]
 
 # id -> (level, technique, text, note)
 CLAIMED = {
+ "C09": ("exploration", "pre-state clone + the engine's own SELECT as reference for which rows / which new values; probes for PK fast path, bulk transfer, truncate path",
+         "Random DML histories over five table shapes; every UPDATE/DELETE/INSERT is checked against the rows and SET values that SELECT reports on a clone of the pre-state, and everything else must be unchanged.",
+         "Row identity via the id column."),
+ "C10": ("exploration", "invariant walker over the table contents after every statement (accepted or rejected)",
+         "After every statement of random histories (incl. REPLACE, ON DUPLICATE KEY, key-changing UPDATE, TRUNCATE, INSERT..SELECT, append-mode patterns) the table is read back and PK / UNIQUE / unique-index / NOT NULL / CHECK are evaluated by the harness.",
+         "Rejections of legal statements are not judged."),
+ "C11": ("fault_enumeration", "snapshot-equality monitor (rows, index-driven probe queries) on every failed statement; failing row enumerated at every position",
+         "168 enumerated statements (k = 2..5 rows, every failing position, 4 fault kinds, VALUES / SELECT-UNION / UPDATE forms) plus every rejected statement of random histories are compared with the pre-statement clone.",
+         "Physical row order is not compared; accepted violating statements are C10's."),
+ "C15": ("exploration", "invariant walker over public index accessors, compared with the definition and with rebuild-on-a-clone",
+         "After every statement the PK hash index is compared with {key(row_i) -> i} from scan(), and PK / UNIQUE hash indexes and user indexes with a rebuild on a clone.",
+         "Rebuild on a clone is the reference the property itself names."),
+
  "C05": ("exploration", "rewrite-family monitor with a definitional nested-loop model (3VL) and join-algorithm probes",
          "Members of four rewrite families (inner join, semi join, NULL-aware anti join, plain anti join; table order, join syntax, IN/EXISTS/ANY/NOT IN/NOT EXISTS/LEFT JOIN IS NULL forms, derived-table wrapping) are each compared with the harness's nested evaluation over the inserted rows.",
          "Model covers equi-join keys on INTEGER columns with an optional local predicate."),
